@@ -91,6 +91,41 @@ def load_known():
         return json.load(f)
 
 
+def thorough_extras(prop, ctx):
+    """thorough tier: mutant self-test of this property's rules and cross-references with other installed static tools.
+    These are recorded in the evidence; they never change the verdict on the tree."""
+    import subprocess
+    out = {}
+    st = os.path.join(VERIF, "bin", "selftest")
+    if os.environ.get("VERIF_NO_SELFTEST") != "1" and not os.environ.get("VERIF_REPO"):
+        try:
+            p = subprocess.run([st, "--prop", prop, "--jobs", "6"], stdout=subprocess.PIPE, stderr=subprocess.STDOUT, text=True, timeout=3600,
+                               env=dict(os.environ, VERIF_TIER="quick"))
+            lines = [l for l in p.stdout.splitlines() if l[:1].isupper() and not l.startswith(" ")]
+            out["selftest"] = {"rc": p.returncode, "results": lines[:80]}
+            print("selftest (%s): %s" % (prop, lines[-1] if lines else "no mutants"))
+        except Exception as e:       # noqa: BLE001
+            out["selftest"] = {"error": str(e)}
+    if prop == "C17":
+        try:
+            env = dict(os.environ, CARGO_NET_OFFLINE="true", CARGO_TARGET_DIR=os.path.join(VERIF, ".cache", "clippy-target"))
+            p = subprocess.run(["cargo", "+nightly", "clippy", "--offline", "--workspace", "--quiet", "--", "-A", "clippy::all", "-W", "clippy::iter_over_hash_type"],
+                               cwd=ctx.root, env=env, stdout=subprocess.PIPE, stderr=subprocess.STDOUT, text=True, timeout=1800)
+            import re
+            sites = sorted(set(re.findall(r"--> ([^\s]+):(\d+)", p.stdout)))
+            out["clippy_iter_over_hash_type"] = {"rc": p.returncode, "sites": ["%s:%s" % s for s in sites][:40]}
+        except Exception as e:       # noqa: BLE001
+            out["clippy_iter_over_hash_type"] = {"error": str(e)}
+    if prop == "C20":
+        try:
+            p = subprocess.run(["clang", "--analyze", "-Xanalyzer", "-analyzer-output=text", os.path.join(ctx.root, "lang/driver/infrastructure/io.c"), "-o", "/dev/null"],
+                               stdout=subprocess.PIPE, stderr=subprocess.STDOUT, text=True, timeout=600)
+            out["clang_analyze_io_c"] = {"rc": p.returncode, "output": p.stdout[-1500:]}
+        except Exception as e:       # noqa: BLE001
+            out["clang_analyze_io_c"] = {"error": str(e)}
+    return out
+
+
 def run_property(prop, rules, tier, seed, level_text, assumptions):
     """Run the rules of one property, print the verdict protocol, write evidence, return exit code."""
     t0 = time.time()
@@ -134,6 +169,9 @@ def run_property(prop, rules, tier, seed, level_text, assumptions):
             json.dump(v.to_json(prop), f, indent=1)
         print("%s:%s: [%s] %s (%s)" % (v.file, v.line, v.rule, v.msg, v.key))
         print("VIOLATION property=%s replay=%s" % (prop, rp))
+    extra = {}
+    if tier == "thorough":
+        extra = thorough_extras(prop, ctx)
     n_inst = sum(len(r.instances) for r in results)
     nontrivial = set()
     for r in results:
@@ -165,6 +203,7 @@ def run_property(prop, rules, tier, seed, level_text, assumptions):
                          "bodies": len(ctx.fx.fns), "adts": len(ctx.fx.adts), "impls": len(ctx.fx.impls)},
             "trusted_base": trusted,
             "known_findings_reported": [v.fullkey(prop) for v, _ in knowns],
+            "thorough": extra,
             "log": ctx.log,
         },
         "assumptions": assumptions,
